@@ -104,6 +104,9 @@ pub struct DecHistory {
     /// when non-empty, call k uses sink `sinks_per_call[k % len]` instead of `sink`: one stream
     /// decoded through a mixture of the UTF-8, UTF-16, &mut str and String methods
     pub sinks_per_call: Vec<Sink>,
+    /// when non-empty, call k is made with replacement iff `repls_per_call[k % len]`: one stream
+    /// decoded through a mixture of the with- and without-replacement methods
+    pub repls_per_call: Vec<bool>,
 }
 
 impl DecHistory {
@@ -120,6 +123,7 @@ impl DecHistory {
             fill: 0xA5,
             align: 0,
             sinks_per_call: Vec::new(),
+            repls_per_call: Vec::new(),
         }
     }
     pub fn to_json(&self) -> Value {
@@ -136,6 +140,7 @@ impl DecHistory {
             "fill": self.fill,
             "align": self.align,
             "sinks_per_call": self.sinks_per_call.iter().map(|s| s.name()).collect::<Vec<_>>(),
+            "replacement_per_call": self.repls_per_call,
         })
     }
     pub fn from_json(v: &Value) -> Option<DecHistory> {
@@ -162,7 +167,18 @@ impl DecHistory {
             fill: v.get("fill")?.as_u64()? as u8,
             align: v.get("align")?.as_u64()? as usize,
             sinks_per_call: v.get("sinks_per_call").and_then(|a| a.as_array()).map(|a| a.iter().filter_map(|x| x.as_str()).map(Sink::from_name).collect()).unwrap_or_default(),
+            repls_per_call: v.get("replacement_per_call").and_then(|a| a.as_array()).map(|a| a.iter().filter_map(|x| x.as_bool()).collect()).unwrap_or_default(),
         })
+    }
+    pub fn repl_for_call(&self, k: usize) -> bool {
+        if self.repls_per_call.is_empty() {
+            self.repl
+        } else {
+            self.repls_per_call[k % self.repls_per_call.len()]
+        }
+    }
+    pub fn is_mixed(&self) -> bool {
+        !self.sinks_per_call.is_empty() || !self.repls_per_call.is_empty()
     }
     pub fn sink_for_call(&self, k: usize) -> Sink {
         if self.sinks_per_call.is_empty() {
@@ -183,6 +199,9 @@ impl DecHistory {
         }
         for s in &self.sinks_per_call {
             h = crate::fw::mix(h, 0x5150 + *s as u64);
+        }
+        for r in &self.repls_per_call {
+            h = crate::fw::mix(h, 0x7170 + *r as u64);
         }
         h
     }
@@ -231,6 +250,11 @@ impl DecHistory {
         if self.align != 0 {
             let mut h = self.clone();
             h.align = 0;
+            out.push(h);
+        }
+        if !self.repls_per_call.is_empty() {
+            let mut h = self.clone();
+            h.repls_per_call.clear();
             out.push(h);
         }
         if !self.sinks_per_call.is_empty() {
@@ -322,7 +346,7 @@ impl DecOutcome {
     /// scalar values of the concatenated output, None if it is not well-formed
     /// scalars of the whole output: in call order for mixed-sink histories
     pub fn scalars_of(&self, h: &DecHistory) -> Option<Vec<u32>> {
-        if h.sinks_per_call.is_empty() {
+        if !h.is_mixed() {
             self.scalars(h.sink)
         } else {
             self.mixed.clone()
@@ -737,6 +761,7 @@ impl DecDriver {
                 }
                 let src = &h.stream[off..b];
                 let sink = h.sink_for_call(call_index);
+                let repl = h.repl_for_call(call_index);
                 let ample = if sink.is_utf16() { n + 16 } else { 3 * n + 32 };
                 let mut from_query = false;
                 let cap = if h.caps.is_empty() {
@@ -746,7 +771,7 @@ impl DecDriver {
                     cap_i += 1;
                     if c == CAP_QUERY || c == CAP_QUERY_EXACT {
                         from_query = true;
-                        let q = match (sink.is_utf16(), h.repl) {
+                        let q = match (sink.is_utf16(), repl) {
                             (true, _) => dec.max_utf16_buffer_length(src.len()),
                             (false, true) => dec.max_utf8_buffer_length(src.len()),
                             (false, false) => dec.max_utf8_buffer_length_without_replacement(src.len()),
@@ -764,7 +789,7 @@ impl DecDriver {
                 };
                 before_call(dec, consumed);
                 let (l8, l16) = (out.out8.len(), out.out16.len());
-                let so = match self.step(dec, sink, h.repl, src, cap, last, h.fill, h.align, &mut out, call_index) {
+                let so = match self.step(dec, sink, repl, src, cap, last, h.fill, h.align, &mut out, call_index) {
                     None => break 'chunks,
                     Some(s) => s,
                 };
